@@ -94,7 +94,8 @@ def rand_cell(rng, kind, lo, hi):
         if kind == "general":         # the same lattice in an arbitrary orientation (diagonal entries of any sign)
             cell = cell.dot(G.random_rotation(rng).T)
         elif kind == "permuted":      # lattice vectors listed in another order / one pair negated: zero or negative diagonal entries
-            cell = cell[[1, 2, 0]] if rng.integers(2) else cell * np.array([[-1.0], [-1.0], [1.0]])
+            r = int(rng.integers(4))
+            cell = [cell[[1, 2, 0]], cell * np.array([[-1.0], [-1.0], [1.0]]), cell[[1, 0, 2]], cell * np.array([[1.0], [1.0], [-1.0]])][r]   # the last two are left-handed
         if G.perp_widths(cell).min() > lo:
             return cell
     return np.diag([a, b, c])
